@@ -447,7 +447,7 @@ func runC03(t *testing.T, x c03Scn, verbose bool) vfCase {
 				if k.SID == 60 {
 					continue // stream closed by the scenario itself
 				}
-				if m := vfCheckExact(k, ws[k], rs[k]); m != "" {
+				if m := vfCheckDelivery(&sc, k, ws[k], rs[k]); m != "" {
 					c.fail("delivery-disturbed", "packets that must be ignored disturbed delivery: %s; %s", m, vfDescribeStall(s, out))
 				}
 			}
